@@ -159,6 +159,7 @@ func VerifH_C10_bodies() {
 	conf := &Config{Types: upkg, Importer: verifImporter{}, HandleErr: func(err error) { panic(err) }}
 	pkg := NewPackage("", "p", conf)
 	fe := &verifFE{pkg: pkg, labels: map[string]*Label{}}
+	fe.lazyLabels = vp.Choose("lazylabels", 2) == 1 // both front-end strategies: labels declared up front / at first mention
 	results := types.NewTuple(types.NewParam(token.NoPos, pkg.Types, "", types.Typ[types.Int]))
 	class, perr := vp.TryVal(func() {
 		fe.cb = pkg.NewFunc(nil, "body2", nil, results, false).BodyStart(pkg)
